@@ -419,59 +419,12 @@ def atheris_campaign(ctx, shard, nshards):
     One libFuzzer process per shard (own seed, own fresh corpus directory
     seeded with valid responses and the recorded bodies; shard 0 starts from
     an empty corpus).  Crash artifacts are replayed through the normal
-    oracle so that they get the usual signatures.
+    oracle so that they get the usual signatures.  See pbt/fuzzlib.py.
     """
-    import subprocess
-    import tempfile
-    import shutil
-    import re
-    from . import fuzz_c02
-    from .runner import VERIF
-    deps = os.path.join(VERIF, '.deps')
-    if not os.path.isdir(os.path.join(deps, 'atheris')):
-        ctx.event('atheris-not-installed')
-        ctx.case(key=('atheris', 'missing'), nontrivial=False)
-        return
-    work = tempfile.mkdtemp(prefix='c02_atheris_')
-    try:
-        cdir = os.path.join(work, 'corpus')
-        os.makedirs(cdir)
-        if shard != 0:
-            fuzz_c02.seed_corpus(cdir)
-        art = os.path.join(work, 'crash-')
-        runs = int(os.environ.get('VERIF_ATHERIS_RUNS', '150000'))
-        secs = int(os.environ.get('VERIF_ATHERIS_SECS', '600'))
-        env = dict(os.environ, PYTHONPATH=deps + os.pathsep + VERIF)
-        found = 0
-        executed = 0
-        for attempt in range(6):
-            cmd = [sys.executable, '-m', 'pbt.fuzz_c02', cdir,
-                   '-artifact_prefix=' + art, '-runs=%d' % runs,
-                   '-max_total_time=%d' % secs, '-max_len=4096',
-                   '-seed=%d' % (ctx.seed % 2 ** 31 + attempt),
-                   '-print_final_stats=1', '-verbosity=0']
-            r = subprocess.run(cmd, cwd=VERIF, env=env, capture_output=True,
-                               text=True, errors='replace')
-            m = re.search(r'stat::number_of_executed_units:\s*(\d+)',
-                          r.stderr + r.stdout)
-            if m:
-                executed += int(m.group(1))
-            crashes = [f for f in os.listdir(work) if f.startswith('crash-')]
-            if not crashes:
-                break
-            for f in crashes:
-                with open(os.path.join(work, f), 'rb') as fp:
-                    data = fp.read()
-                os.remove(os.path.join(work, f))
-                found += 1
-                atheris_replay(ctx, ('bytes', data.hex()))
-            # libFuzzer stops at the first crash: go on with a new seed
-        ctx.evaluations += executed
-        ctx.event('atheris:executed-units', executed)
-        ctx.event('atheris:crash-artifacts', found)
-        ctx.event('atheris:corpus-files', len(os.listdir(cdir)))
-    finally:
-        shutil.rmtree(work, ignore_errors=True)
+    from . import fuzz_c02, fuzzlib
+    fuzzlib.campaign(ctx, shard, 'pbt.fuzz_c02', fuzz_c02.seed_corpus,
+                     atheris_replay, max_len=4096,
+                     dictionary=fuzz_c02.DICTIONARY)
 
 
 def atheris_replay(ctx, example):
